@@ -76,7 +76,7 @@ pub const ROUTES: &[(&str, &str, bool)] = &[
 
 /// routes on which a RuntimeLimitError hits a known finding (EnginePanic "cannot fail per spec"
 /// in the async-function start, failed assertion in the async-generator start)
-pub const EXCLUDED_RECURSION_ROUTES: &[&str] = &["async-start", "async-generator", "for-await-body"];
+pub const EXCLUDED_RECURSION_ROUTES: &[&str] = &[];
 
 pub const LOOPS: &[(&str, &str)] = &[
     ("while", "var i = 0; while (i < N) { i++; BODY }"),
